@@ -3,6 +3,7 @@
 -/
 import MelModel.Seal
 import MelModel.Lemmas.TotalSeal
+import MelModel.Props.C16
 namespace Mel
 open Mel.Gen
 
@@ -18,9 +19,10 @@ structure SealTotalPre (env : Env) (s : State) : Prop where
       (the coin was created from that output by `apply_tx`) -/
   faithfulCov : ∀ tx ∈ s.txs, ∀ i o c, tx.outputs[i]? = some o → s.coins.getCoin ⟨tx.hash, i⟩ = some c →
       c.coinData.covhash = o.covhash
-  /-- every pool that has issued liquidity has reserves on both sides (C16); builtin pools have reserves -/
+  /-- every pool that has issued liquidity has reserves on both sides (C16). Nothing more is assumed of the builtin
+      pools: since the `fix:` for finding F23 one that records no liquidity is created afresh by `create_builtins`
+      (the former assumption `builtins`, that an existing builtin pool has reserves and liquidity, is gone) -/
   poolsSane : ∀ k p, s.pools.get k = some p → (p.liqs ≠ 0 → 0 < p.lefts ∧ 0 < p.rights)
-  builtins : ∀ k ∈ [poolMelSym, poolMelErg, poolErgSym], ∀ p, s.pools.get k = some p → 0 < p.lefts ∧ 0 < p.rights ∧ 0 < p.liqs
   /-- liquidity tokens held never reach a builtin pool's whole liquidity (C16; excluded: faucet-minted tokens,
       K-faucet-liq). Stated for the pools after `create_builtins`, so that it also covers a builtin pool
       created (with the nobody-owned default liquidity) by this very seal. -/
@@ -77,23 +79,22 @@ theorem C09_swaps_total (s : State) : ∀ c, processSwaps s ≠ .crash c := by
 /-- **sealing is total** -/
 theorem C09_seal_total (env : Env) (s : State) (a : Option ProposerAction) (hp : SealTotalPre env s) :
     ∀ c, sealState env s a ≠ .crash c := by
-  obtain ⟨ss, h⟩ := sealState_ok env s a hp.counts hp.faithfulCov hp.txHashes hp.poolsSane hp.builtins
+  obtain ⟨ss, h⟩ := sealState_ok env s a hp.counts hp.faithfulCov hp.txHashes hp.poolsSane
     hp.builtinsNotDrained hp.reserveBound hp.liqsU128 hp.melInflowBound hp.feeBound hp.height
   exact Outcome.ne_crash_of_ok h
 
 /-- in fact sealing succeeds (nothing in it rejects) -/
 theorem C09_seal_ok (env : Env) (s : State) (a : Option ProposerAction) (hp : SealTotalPre env s) :
     ∃ ss, sealState env s a = .ok ss :=
-  sealState_ok env s a hp.counts hp.faithfulCov hp.txHashes hp.poolsSane hp.builtins
+  sealState_ok env s a hp.counts hp.faithfulCov hp.txHashes hp.poolsSane
     hp.builtinsNotDrained hp.reserveBound hp.liqsU128 hp.melInflowBound hp.feeBound hp.height
 
 /-- non-vacuity: the empty state of a fresh chain satisfies the assumptions -/
 example (env : Env) : SealTotalPre env (default : State) := by
-  refine ⟨?_, ?_, ?_, ?_, ?_, ?_, ?_, ?_, ?_, ?_, ?_⟩
+  refine ⟨?_, ?_, ?_, ?_, ?_, ?_, ?_, ?_, ?_, ?_⟩
   · intro h; exact absurd h (by decide)
   · intro tx htx; cases htx
   · intro k p h; cases h
-  · intro k _ p h; cases h
   · intro k _ p h
     rcases createBuiltins_get default k with e | e
     · rw [e] at h; cases h
@@ -105,6 +106,48 @@ example (env : Env) : SealTotalPre env (default : State) := by
   · exact List.nodup_nil
   · decide
 
+/-- the state of finding F23 (`emptiedErgSymState`, Props/C16.lean: TIP-902 just activated, the ERG/SYM pool
+    emptied by its only depositor) satisfies the assumptions — before the `fix:` it did not (the assumption
+    `builtins` failed) and pegging crashed on it (`C16_old_emptied_ergsym_crashes`) -/
+theorem C09_emptied_ergsym_pre (env : Env) : SealTotalPre env emptiedErgSymState := by
+  have hget : ∀ k ∈ [poolMelSym, poolMelErg, poolErgSym],
+      (createBuiltins emptiedErgSymState).pools.get k = some builtinDefault := by decide
+  have hold : ∀ k p, emptiedErgSymState.pools.get k = some p →
+      p = builtinDefault ∨ p = { lefts := 0, rights := 0, priceAccum := 7, liqs := 0 } := by
+    intro k p h
+    simp only [emptiedErgSymState, AList.get] at h
+    split at h
+    · cases h; exact Or.inl rfl
+    split at h
+    · cases h; exact Or.inl rfl
+    split at h
+    · cases h; exact Or.inr rfl
+    · cases h
+  refine ⟨?_, ?_, ?_, ?_, ?_, ?_, ?_, ?_, ?_, ?_⟩
+  · intro h; exact absurd h (by decide)
+  · intro tx htx; cases htx
+  · intro k p h hl
+    rcases hold k p h with rfl | rfl
+    · decide
+    · exact absurd rfl hl
+  · intro k hk p h
+    rw [hget k hk] at h; cases h
+    show 0 < builtinDefault.liqs
+    decide
+  · decide
+  · intro p h
+    rcases hold _ p h with rfl | rfl <;> decide
+  · decide
+  · intro k _ p h
+    rcases hold k p h with rfl | rfl <;> decide
+  · exact List.nodup_nil
+  · decide
+
+/-- so sealing that state no longer crashes -/
+theorem C09_emptied_ergsym_seals (env : Env) (a : Option ProposerAction) :
+    ∃ ss, sealState env emptiedErgSymState a = .ok ss :=
+  C09_seal_ok env _ a (C09_emptied_ergsym_pre env)
+
 end Mel
 
 #print axioms Mel.C09_swap_total
@@ -115,3 +158,5 @@ end Mel
 #print axioms Mel.C09_swaps_total
 #print axioms Mel.C09_seal_total
 #print axioms Mel.C09_seal_ok
+#print axioms Mel.C09_emptied_ergsym_pre
+#print axioms Mel.C09_emptied_ergsym_seals
